@@ -23,10 +23,13 @@ type State struct {
 	heap   map[string]*Term
 	ac     *Term // allocation counter: every ref allocated so far is < ac
 	defers []deferEntry
+	epoch   int      // havoc-all generation: maps never touched since read as H<epoch>.<name>
+	mergeOf []*State // predecessors of a merge, for maps first read after the merge
+	snaps  map[string]*State // path-sensitive snapshots: "lock" (after last acquire), "unlock" (before last release)
 }
 
 func (s *State) clone() *State {
-	n := &State{pc: s.pc, ac: s.ac, cells: make(map[*ssa.Alloc]*Val, len(s.cells)), heap: make(map[string]*Term, len(s.heap))}
+	n := &State{pc: s.pc, ac: s.ac, epoch: s.epoch, mergeOf: s.mergeOf, cells: make(map[*ssa.Alloc]*Val, len(s.cells)), heap: make(map[string]*Term, len(s.heap))}
 	for k, v := range s.cells {
 		n.cells[k] = v
 	}
@@ -34,6 +37,12 @@ func (s *State) clone() *State {
 		n.heap[k] = v
 	}
 	n.defers = append([]deferEntry(nil), s.defers...)
+	if s.snaps != nil {
+		n.snaps = map[string]*State{}
+		for k, v := range s.snaps {
+			n.snaps[k] = v
+		}
+	}
 	return n
 }
 
@@ -48,9 +57,43 @@ func (s *State) hget(name string, srt *Sort) *Term {
 		panic(fmt.Sprintf("heap map %s used at sorts %s and %s", name, old.Name, srt.Name))
 	}
 	heapSorts[name] = srt
-	t := Var("H."+name, srt)
-	return t
+	if len(s.mergeOf) > 0 {
+		// first read after a merge: resolve through the predecessors
+		var vals []*Term
+		same := true
+		for i, p := range s.mergeOf {
+			v := p.hget(name, srt)
+			vals = append(vals, v)
+			if i > 0 && v != vals[0] {
+				same = false
+			}
+		}
+		var t *Term
+		if same {
+			t = vals[0]
+		} else {
+			t = Fresh("Hm."+name, srt)
+			for i, p := range s.mergeOf {
+				if lateDef != nil {
+					lateDef(Implies(p.pc, Eq(t, vals[i])))
+				}
+			}
+		}
+		s.heap[name] = t
+		return t
+	}
+	if s.epoch == 0 {
+		return Var("H."+name, srt)
+	}
+	return Var(fmt.Sprintf("H%d.%s", s.epoch, name), srt)
 }
+
+// lateDef receives definitional facts created while resolving lazily merged maps.
+var lateDef func(*Term)
+
+var epochCtr int
+
+func newEpoch() int { epochCtr++; return epochCtr }
 
 func (s *State) hset(name string, t *Term) {
 	heapSorts[name] = t.S
@@ -268,6 +311,7 @@ func mergeStates(ins []*State, name string, addFact func(*Term)) *State {
 		return ins[0].clone()
 	}
 	out := &State{cells: map[*ssa.Alloc]*Val{}, heap: map[string]*Term{}}
+	out.mergeOf = append([]*State(nil), ins...)
 	var pcs []*Term
 	for _, s := range ins {
 		pcs = append(pcs, s.pc)
@@ -343,6 +387,41 @@ func mergeStates(ins []*State, name string, addFact func(*Term)) *State {
 		}
 	}
 	out.ac = acc
+	// snapshots: merged with the predecessors' path conditions
+	snapKeys := map[string]bool{}
+	for _, in := range ins {
+		for k := range in.snaps {
+			snapKeys[k] = true
+		}
+	}
+	for k := range snapKeys {
+		same := true
+		var first *State
+		var parts []*State
+		for i, in := range ins {
+			sn := in.snaps[k]
+			if sn == nil {
+				sn = in
+			}
+			if i == 0 {
+				first = sn
+			} else if sn != first {
+				same = false
+			}
+			cp := sn.clone()
+			cp.pc = in.pc
+			cp.snaps = nil
+			parts = append(parts, cp)
+		}
+		if out.snaps == nil {
+			out.snaps = map[string]*State{}
+		}
+		if same {
+			out.snaps[k] = first
+		} else {
+			out.snaps[k] = mergeStates(parts, name+".snap."+k, addFact)
+		}
+	}
 	// defers: must agree structurally; take the longest (guards make them conditional)
 	for _, s := range ins {
 		if len(s.defers) > len(out.defers) {
